@@ -4,7 +4,7 @@ import itemgen as G, refmodel as R, glayer
 from common import Expander
 
 LEVEL = "exploration"
-G_UNITS = {"kinds": ["HelperAttributeKinds::is_match_cmp_attr", "HelperAttributeKinds::extend", "HelperAttributeKinds::without_derive_ex", "HelperAttributeKinds::new"]}
+G_UNITS = {"kinds": ["HelperAttributeKinds::is_match_cmp_attr", "HelperAttributeKinds::extend", "HelperAttributeKinds::without_derive_ex", "HelperAttributeKinds::new"], "implitem": ["is_root_derive_ex_attr"]}
 
 
 def norm(ex, text):
